@@ -134,9 +134,17 @@ def main():
     ap.add_argument("--files", default=",".join(FILE_PROPS))
     ap.add_argument("--seed", type=int, default=1)
     ap.add_argument("--out", default=os.path.join(ROOT, "build", "mutsweep.json"))
+    ap.add_argument("--rerun-escaped", default="", help="result file of an earlier sweep: re-run only its ESCAPED mutants")
+    ap.add_argument("--props", default="", help="with --rerun-escaped: the checks to run (comma separated) instead of the per-file list")
     a = ap.parse_args()
     rng = random.Random(a.seed)
-    ms = mutants(a.files.split(","), rng, a.limit)
+    ms = mutants(a.files.split(","), rng, 0 if a.rerun_escaped else a.limit)
+    if a.rerun_escaped:
+        esc = set((x["file"], x["line"], x["new"]) for x in json.load(open(a.rerun_escaped)) if x["verdict"] == "ESCAPED")
+        ms = [m for m in ms if (m["file"], m["line"], m["new"]) in esc]
+        if a.props:
+            for f in FILE_PROPS:
+                FILE_PROPS[f] = a.props.split(",")
     print(f"{len(ms)} mutants", flush=True)
     q = queue.Queue()
     for m in ms:
